@@ -194,6 +194,36 @@ pub fn run(ctx: &Ctx) -> Rep {
     let (rn, xn) = merge_states(sn);
     rep.merge(rn);
 
+    // ---- field-structured neighbours ------------------------------------------------------------------------
+    // every card with each of its 3,456 field-structured variants (model::field_variants), as a pair in both
+    // orders and inside hands of every size
+    let card_ids: Vec<u8> = (0..52u8).step_by(if ctx.smoke() { 26 } else { 1 }).collect();
+    let sf = par_run(ctx, card_ids.len(), mk, |st, ci| {
+        let base = model::word(card_ids[ci]);
+        let mut rng = Rng::new(seed, 0xC11_0D00 + ci as u64);
+        for (k, v) in model::field_variants(base).into_iter().enumerate() {
+            if ctx.smoke() && k % 97 != 0 {
+                continue;
+            }
+            check_sort(st, &[base, v]);
+            check_sort(st, &[v, base]);
+            let n = 3 + (k % 5);
+            let mut h = [0u32; 7];
+            for s in 0..n {
+                h[s] = match rng.below(3) {
+                    0 => base,
+                    1 => v,
+                    _ => model::word(rng.below(52) as u8),
+                };
+            }
+            h[rng.below(n as u64) as usize] = v;
+            check_sort(st, &h[..n]);
+            st.x.near_equal += 3;
+        }
+    });
+    let (rf, xf) = merge_states(sf);
+    rep.merge(rf);
+
     // ---- seeded hands: arbitrary words, card-or-blank, near-sorted ---------------------
     let per_size = ctx.pick(300, 1_000_000, 20_000_000) as usize;
     let chunks = 64usize;
@@ -229,7 +259,7 @@ pub fn run(ctx: &Ctx) -> Rep {
     rep.merge(rs);
 
     let mut acc = mk();
-    for x in xa.into_iter().chain(xn).chain(xs) {
+    for x in xa.into_iter().chain(xn).chain(xf).chain(xs) {
         acc.near_equal += x.near_equal;
         acc.with_dupes += x.with_dupes;
         acc.already_sorted += x.already_sorted;
@@ -258,7 +288,7 @@ pub fn run(ctx: &Ctx) -> Rep {
     rep.exhaustive = Some(false);
     rep.rule = format!(
         "all 52 x 52 card pairs (constants and deck); every arrangement of sizes 2..{} over an 8-word alphabet \
-         {{0, 1, two jacks, a flagged card, 0x7FFFFFFF, 0x80000000, 0xFFFFFFFF}}; for ~100 base words (all cards, extremes, seeded) every pair differing in one or two bits inside hands of every size; {} seeded arbitrary-word and {} seeded card-or-blank hands per size 2..7. \
+         {{0, 1, two jacks, a flagged card, 0x7FFFFFFF, 0x80000000, 0xFFFFFFFF}}; for ~100 base words (all cards, extremes, seeded) every pair differing in one or two bits inside hands of every size; every card paired with each of its 3,456 field-structured variants; {} seeded arbitrary-word and {} seeded card-or-blank hands per size 2..7. \
          distinct = arrangements enumerated + hash-set count of (a bounded prefix of) the seeded hands; a hand is non-trivial always (the oracle is an independent insertion sort)",
         max_n, per_size, per_size
     );
